@@ -1,7 +1,7 @@
 PROP = {
     "modules": ["Discv5Model.Props.C09"],
     "lemma_modules": ["Discv5Model.Proofs.QueryLemmas"],
-    "engines": [{"name": "query", "quick": 1000, "thorough": 50000}],
+    "engines": [{"name": "query", "quick": 1000, "thorough": 50000}, {"name": "service", "quick": 80, "thorough": 4000}],
     "rule": "query engine (cases shared with C10): 6/7 of the cases drive one FindNodeQuery or PredicateQuery directly "
             "with explicit time (parallelism 1..8, num_results 1..24, occasionally 0; peer timeout 0..100): next at "
             "deadlines -1/0/+1, success / failure for outstanding requests (@k), already answered ones (%k) and "
@@ -12,7 +12,10 @@ PROP = {
             "Idle/Waiting(None), events grouped per query id). After every op the returned QueryState, and for "
             "FindNodeQuery num_waiting, progress and all peer states (read from the derived Debug), are compared "
             "with the model. non-trivial = single-query case with >= 3 requests that hit WaitingAtCapacity or a "
-            "late answer, or pool case that handed a non-empty result back",
+            "late answer, or pool case that handed a non-empty result back. A real-time pool scenario (300 ms query "
+            "timeout, lookups with parallelism 0 or silent peers, 450 ms of silence) checks the cut-off against the wall "
+            "clock. service engine (lookup profile shared with C11): find_node through the real Service with answering, "
+            "failing and silent peers; when the lookup ends the caller must receive a result (possibly empty)",
     "nontrivial": [("query", "q.nt.c09"), ("query", "q.nt.pool")],
     "trusted_base": ["Instant arithmetic of std (explicit `now : Nat` in the model; monotone time in the monitors)",
                      "BTreeMap / FnvHashMap of std/fnv (sorted list / id-indexed list with the visiting order as a parameter)"],
@@ -33,7 +36,8 @@ PROP = {
                   "no peer is handed out twice, at most |known ids| requests are issued; for every pool history and "
                   "every hash-map visiting order a poll past the query timeout hands out a request or removes a query, "
                   "and no query id is handed back twice or reachable afterwards. The model is tied to /repo by a "
-                  "differential run on every check.",
+                  "differential run on every check and by lookups through the real Service (the caller's future must "
+                  "resolve to a result when the lookup ends).",
     "level_note": "Trusted: Lean kernel, harness/driver. The tie model<->code is a sampled differential check, not a "
                   "proof. Liveness beyond the model (poll being called again) is a runtime assumption.",
 }
